@@ -1,9 +1,9 @@
-\* edge emission: unset start / one-of-two same-named keep-sets, deeper (thorough)
-CONSTANTS N = 2  Par = {"p", "q"}  NVal = 2  NGrid = 2  MaxDepth = 2  MaxLevel = 5
+\* edge emission, grid focus with Block.setHeight: assembly > block, deeper (thorough)
+CONSTANTS N = 2  Par = {"p", "q"}  NVal = 2  NGrid = 3  MaxDepth = 2  MaxLevel = 6
           GridSlot = "stack"  PickleSerial = "fresh"  DbSerial = "max"
-CONSTANTS Keeps <- KeepsOne  Acts <- ActsParams  Parent0 <- ParentD  Cls0 <- ClsD
+CONSTANTS Keeps <- KeepsNone  Acts <- ActsGrid  Parent0 <- ParentE  Cls0 <- ClsE
           ParOf <- McParOf  GridCls <- McGridCls  MatCls <- McMatCls
-          DbCls <- McDbCls  CopyCls <- McAllCls  CallsOf <- McCallsOf  Unset0 <- McUnset  Link0 <- LinkNone
+          DbCls <- McDbCls  CopyCls <- McAllCls  CallsOf <- McCallsOf  Unset0 <- NoUnset  Link0 <- LinkNone
 ACTION_CONSTRAINT Emit
 INIT Init
 NEXT Next
